@@ -50,6 +50,9 @@ CONTEXTS = [
     ("type_after_dot", "CREATE TABLE t ( a s .", "dot_name"),
     ("ref_list_later", "CREATE TABLE t ( a int REFERENCES o ( x ,", "column_name"),
     ("default_paren", "CREATE TABLE t ( a int DEFAULT (", "column_name"),
+    ("alter_drop", "ALTER TABLE t DROP", "kw"),
+    ("alter_rename", "ALTER TABLE t RENAME", "kw"),
+    ("alter_modify", "ALTER TABLE t MODIFY", "kw"),
 ]
 CTX = env_int("VF_CTX", 0)
 CTX_NAME, PREFIX, ROLE = CONTEXTS[CTX]
@@ -217,6 +220,7 @@ EXPECT_KW = {
     "seq_options": _SEQ, "seq_options2": _SEQ, "seq_after_cache": [w for w in _SEQ if w != "BY"],
     "alter_body": ["ADD", "DROP", "COLUMN", "RENAME", "MODIFY", "DEFAULT", "IF", "EXISTS"],
     "alter_add": ["CONSTRAINT", "PRIMARY", "KEY", "FOREIGN", "UNIQUE", "CHECK", "DEFAULT", "COLUMN"],
+    "alter_drop": ["COLUMN"], "alter_rename": ["COLUMN"], "alter_modify": ["COLUMN"],
 }
 EXPECTED = set(EXPECT_KW.get(CTX_NAME, []))
 TYPE_OF = {"AUTO_INCREMENT": "AUTOINCREMENT"}
@@ -285,7 +289,7 @@ COMPLETIONS = ["", " x", " NULL", " KEY", " 1", " BY 1", " x y", " ( x )", " TAB
                " COLUMN x", " COLUMN x int", " COLUMN x TO y", " KEY ( a )", " ( a )", " x int", " int", " x ( y )",
                " AS x", " 'x'", " = x", " x = y", " EXISTS x ( y int )", " AS ENUM ( 'a' )",
                " ( a > 1 )", " ( a < 1 )", " ( a > 1 ) , c int", " ( a >= 1 and a <= 9 )", " ( x > 0 )", " < int >", " < int > , c int",
-               " x , c int", " ( x ) , c int", " 1 , c int", " NULL , c int"]
+               " x , c int", " ( x ) , c int", " 1 , c int", " NULL , c int", " a", " b", " a TO c", " a varchar ( 5 )", " b int"]
 
 
 def _closers(prefix: str):
@@ -302,26 +306,36 @@ POLLUTERS = ["SELECT x FROM y WHERE ( a = 1 {W} b = 2 ) ;", "CREATE VIEW w AS SE
 
 def api_pollution(word: str):
     """A word lexed in one statement must not change how a later statement is parsed (the
-    keyword tables are module-level): victim statement alone vs after a polluting statement."""
-    from simple_ddl_parser import DDLParser
+    keyword tables are module-level): victim statement alone vs after a polluting statement,
+    each in a fresh interpreter (what was lexed first in a process is exactly what matters)."""
+    import json
+    import subprocess
+    import sys
+    code = ("import json,sys\nfrom simple_ddl_parser import DDLParser\nout=[]\n"
+            "for d in json.loads(sys.stdin.read()):\n"
+            "    try:\n        out.append(DDLParser(d).run())\n    except Exception as e:\n        out.append(type(e).__name__+': '+str(e))\n"
+            "print(json.dumps(out, default=repr))")
 
-    def go(ddl):
+    def fresh(ddls):
+        r = subprocess.run([sys.executable, "-c", code], input=json.dumps(ddls), capture_output=True, text=True)
         try:
-            return DDLParser(ddl).run()
-        except Exception as e:
-            return f"{type(e).__name__}: {e}"
+            return json.loads(r.stdout.strip().splitlines()[-1])
+        except Exception:
+            return [None] * len(ddls)
 
     for w in (word.upper(), word.lower()):
-        for v in VICTIMS:
-            victim = v.replace("{W}", w)
-            alone = go(victim)
-            for p in POLLUTERS:
-                first = p.replace("{W}", w)
-                # a fresh process state is needed per attempt: run in this order inside one interpreter only once per pair
-                both = go(first + "\n" + victim)
-                tail = both[-len(alone):] if isinstance(both, list) and isinstance(alone, list) and alone else both
-                if isinstance(alone, list) and alone and tail != alone:
-                    return {"ddl": first + "\n" + victim, "got": both, "expected_tail": alone, "reproduced": True}
+        victims = [v.replace("{W}", w) for v in VICTIMS]
+        alone = [fresh([v])[0] for v in victims]
+        for p in POLLUTERS:
+            first = p.replace("{W}", w)
+            for v, al in zip(victims, alone):
+                if not (isinstance(al, list) and al):
+                    continue
+                both = fresh([first + "\n" + v])[0]
+                tail = both[-len(al):] if isinstance(both, list) else both
+                if tail != al:
+                    return {"ddl": first + "\n" + v, "got": both, "expected_tail": al, "reproduced": True,
+                            "note": "each script parsed in a fresh interpreter"}
     return {"reproduced": False}
 
 
